@@ -37,6 +37,8 @@ import (
 	"google.golang.org/grpc/status"
 	"google.golang.org/protobuf/encoding/protojson"
 	protov2 "google.golang.org/protobuf/proto"
+	"os"
+	"github.com/yandex/pandora/lib/answlog"
 )
 
 type gcall struct {
@@ -110,6 +112,7 @@ type C20Cell struct {
 	Bound     int     `json:"bound"`
 	Codes     []int   `json:"codes,omitempty"`
 	Passes    int     `json:"passes,omitempty"`
+	AnswLog   string  `json:"answlog,omitempty"` // answer log filter (all | warning | error), "" = off
 }
 
 func (c C20Cell) Name() string {
@@ -118,7 +121,7 @@ func (c C20Cell) Name() string {
 		b, _ := json.Marshal(e.Payload)
 		es = append(es, fmt.Sprintf("%s%s md=%d %s", strings.TrimPrefix(e.Call, "target.TargetService."), b, len(e.Metadata), e.Bad))
 	}
-	return fmt.Sprintf("c20|%s|%s|timeout=%d|inst=%d|shots=%d|codes=%v", c.Mode, strings.Join(es, ";"), c.TimeoutMs, c.Instances, c.Shots, c.Codes)
+	return fmt.Sprintf("c20|%s|%s|timeout=%d|inst=%d|shots=%d|codes=%v", c.Mode, strings.Join(es, ";"), c.TimeoutMs, c.Instances, c.Shots, c.Codes) + map[bool]string{true: "|answlog=" + c.AnswLog}[c.AnswLog != ""]
 }
 
 var reqTypes = map[string]func() protov2.Message{
@@ -200,11 +203,11 @@ func (r *c20run) scenario(x *vs.X) func(end, msg string) error {
 	for i := 0; i < c.Instances; i++ {
 		deps := core.GunDeps{Ctx: context.Background(), Log: nop, PoolID: "p", InstanceID: i}
 		if c.Mode == "scenario" || c.Mode == "scodes" || c.Mode == "snames" || strings.HasPrefix(c.Mode, "sfail") {
-			g := grpcscenario.NewGun(grpcscenario.GunConfig{Target: "t", Timeout: timeout})
+			g := grpcscenario.NewGun(grpcscenario.GunConfig{Target: "t", Timeout: timeout, AnswLog: grpcscenario.AnswLogConfig{Enabled: c.AnswLog != "", Path: os.DevNull, Filter: c.AnswLog}})
 			grpcscenario.ZvBind(g, gAgg{&r.samples}, deps, grpcdynamic.NewStub(ch), services)
 			guns = append(guns, g)
 		} else {
-			g := &grpcgun.Gun{Conf: grpcgun.GunConfig{Target: "t", Timeout: timeout}, Stub: grpcdynamic.NewStub(ch), Services: services, Aggr: gAgg{&r.samples}, GunDeps: deps}
+			g := &grpcgun.Gun{Conf: grpcgun.GunConfig{Target: "t", Timeout: timeout, AnswLog: grpcgun.AnswLogConfig{Enabled: c.AnswLog != "", Path: os.DevNull, Filter: c.AnswLog}}, AnswLog: answlog.Init(os.DevNull, c.AnswLog != ""), Stub: grpcdynamic.NewStub(ch), Services: services, Aggr: gAgg{&r.samples}, GunDeps: deps}
 			guns = append(guns, g)
 		}
 	}
@@ -794,6 +797,11 @@ func c20cells(thorough bool) []C20Cell {
 			}
 		}
 		// the gRPC scenario gun with payload and status assertions on answers that carry no message
+		for _, flt := range []string{"all", "warning", "error"} {
+			// the answer log with every filter: logging an answer (or its absence) must not change the outcome
+			out = append(out, C20Cell{Mode: "codes", Entries: []Entry{good[1], good[5]}, Instances: 1, Codes: []int{a, 0, a}, AnswLog: flt})
+			out = append(out, C20Cell{Mode: "scodes", Instances: 1, Shots: 3, Codes: []int{0, a, a, 0}, AnswLog: flt})
+		}
 		out = append(out, C20Cell{Mode: "scodes", Instances: 1, Shots: 3, Codes: []int{a, 0, 0, a}})
 		out = append(out, C20Cell{Mode: "scodes", Instances: 1, Shots: 3, Codes: []int{0, a, a, 0}})
 	}
